@@ -926,6 +926,7 @@ func checkCarriedStructFields(p *Program, r *Report, k *ssa.Function, key string
 				continue
 			}
 			wIn, rIn, calleeWrites := false, false, false
+			var mustWrites []ssa.Instruction
 			var directStores []*ssa.Store
 			var loads []ssa.Instruction
 			for lb := range l.Blocks {
@@ -958,6 +959,10 @@ func checkCarriedStructFields(p *Program, r *Report, k *ssa.Function, key string
 								if usesField(h, ai, fi, 0) {
 									rIn = true
 									loads = append(loads, x)
+								} else if fieldAlwaysWrittenBy(h, ai, fi) {
+									// assigns the field on every path and never reads it: what is read afterwards is this
+									// iteration's value
+									mustWrites = append(mustWrites, x)
 								}
 							default: // a copy of the struct (value receiver): read only
 								if u, ok := arg.(*ssa.UnOp); ok && u.Op == token.MUL && u.X == ssa.Value(a) && usesField(h, ai, fi, 0) {
@@ -973,12 +978,19 @@ func checkCarriedStructFields(p *Program, r *Report, k *ssa.Function, key string
 				continue
 			}
 			// scratch: written in the kernel itself at the top of every iteration before any use
-			if !calleeWrites {
+			{
 				scratch := true
 				for _, ld := range loads {
 					dom := false
-					for _, s := range directStores {
-						if instrDominates(s, ld) {
+					if !calleeWrites || len(mustWrites) > 0 {
+						for _, s := range directStores {
+							if instrDominates(s, ld) {
+								dom = true
+							}
+						}
+					}
+					for _, mw := range mustWrites {
+						if mw != ld && instrDominates(mw, ld) {
 							dom = true
 						}
 					}
@@ -1301,4 +1313,31 @@ func checkStaleStateReads(p *Program, r *Report, models []*Model) {
 		}
 	}
 	r.Floor("R06.11", "carried float states", n, 10)
+}
+
+// fieldAlwaysWrittenBy: h assigns field fi of the struct its parameter ai points to in a block that dominates every
+// return (directly, not through further callees).
+func fieldAlwaysWrittenBy(h *ssa.Function, ai, fi int) bool {
+	if h == nil || ai >= len(h.Params) || len(h.Blocks) == 0 {
+		return false
+	}
+	rets := returnsOf(h)
+	found := false
+	eachInstr(h, func(b *ssa.BasicBlock, _ int, ins ssa.Instruction) {
+		st, ok := ins.(*ssa.Store)
+		if !ok {
+			return
+		}
+		fa, ok := st.Addr.(*ssa.FieldAddr)
+		if !ok || fa.Field != fi || origin1(fa.X) != ssa.Value(h.Params[ai]) {
+			return
+		}
+		for _, ret := range rets {
+			if !b.Dominates(ret.Block()) {
+				return
+			}
+		}
+		found = true
+	})
+	return found
 }
